@@ -257,6 +257,9 @@ class Run:
         self.known = load_known()
         self._replay_n = 0
         os.makedirs(os.path.join(VERIF, "replays"), exist_ok=True)
+        import glob
+        for old in glob.glob(os.path.join(VERIF, "replays", f"{pid}-{tier}-*.json")):
+            os.remove(old)
         os.makedirs(os.path.join(VERIF, "evidence"), exist_ok=True)
 
     def log(self, msg):
